@@ -23,7 +23,9 @@ command layer and boundary inputs; g/h and i/j aimed at whatever the earlier one
 state left on an object by an earlier call, absent versus zero values, fast paths for special shapes, counts beyond one byte,
 half-done results reported as success, layouts and spellings other programs use). {missed} were missed by the first
 version of a check and led to a stronger workload (marked MISSED … After …); all of those are caught by the quick tier at
-VERIF_SEED=1 now. {len(other)} thread-count changes submitted under C10/C18 ({', '.join(other)}) are decided by C11. {len(nd)} ({', '.join(nd)}) are
+VERIF_SEED=1 now; `tools/seedregress.py` re-applies every change to a scratch copy of the repository and re-runs the check(s)
+named here (last full run: all 196 changes outside the documented non-detections reported; four old patches needed a
+`patch.rebased.diff` because later fix commits touched the same lines). {len(other)} thread-count changes submitted under C10/C18 ({', '.join(other)}) are decided by C11. {len(nd)} ({', '.join(nd)}) are
 documented non-detections because the changed behaviour lies outside what the property states (an oracle for it would alarm
 on code where the property holds, or no user-reachable execution shows it). What the misses taught, as generic workload
 rules now applied across the checks: give commands files of SEVERAL trees with DIFFERENT tip sets and sizes; offer inputs as
